@@ -3,11 +3,11 @@ use crate::errors::{Result, SvgdxError};
 use crate::events::InputEvent;
 use crate::expression::eval_attr;
 use crate::position::{BoundingBox, Size};
-use crate::types::{attr_split, extract_urlref, strp, AttrMap, ClassList, ElRef, OrderIndex};
+use crate::types::{attr_split, extract_urlref, strp, AttrMap, ClassList, ElRef};
 use crate::TransformConfig;
 
 use std::cell::RefCell;
-use std::collections::{HashMap, HashSet};
+use std::collections::HashMap;
 use std::time::{SystemTime, UNIX_EPOCH};
 
 use rand::prelude::*;
@@ -115,8 +115,8 @@ pub struct TransformerContext {
     rng: RefCell<Pcg32>,
     /// Current recursion depth
     current_depth: u32,
-    /// Elements which have been successfully resolved so far
-    resolved: HashSet<OrderIndex>,
+    /// Number of elements which have been successfully resolved so far
+    resolved: usize,
     /// Is this a 'real' SVG doc, or just a fragment?
     pub real_svg: bool,
     /// Are we in a <specs> block?
@@ -140,7 +140,7 @@ impl Default for TransformerContext {
             rng: RefCell::new(Pcg32::seed_from_u64(0)),
             local_style_id: None,
             current_depth: 0,
-            resolved: HashSet::new(),
+            resolved: 0,
             real_svg: false,
             in_specs: false,
             events: Vec::new(),
@@ -288,14 +288,14 @@ impl TransformerContext {
         self.config = config;
     }
 
-    /// Record that the element with the given index has been resolved.
-    pub fn note_resolved(&mut self, idx: &OrderIndex) {
-        self.resolved.insert(idx.clone());
+    /// Record that an element has been resolved.
+    pub fn note_resolved(&mut self) {
+        self.resolved += 1;
     }
 
-    /// Number of distinct elements resolved so far; only ever increases.
+    /// Number of elements resolved so far; only ever increases.
     pub fn resolved_count(&self) -> usize {
-        self.resolved.len()
+        self.resolved
     }
 
     pub fn set_events(&mut self, events: Vec<InputEvent>) {
